@@ -94,14 +94,25 @@ def write_xdmf(path, variants):
         os.chdir(cwd)
 
 
+def step_name(side, i, scheme):
+    """file name of step i: the order of the steps is the order of the entries of the index file, whatever the files are called
+    (numbered, named in descending alphabetical order, or the two sides named by different schemes)"""
+    if scheme == "descending":
+        return f"{side}_{chr(ord('z') - i)}.vtu"
+    if scheme == "mixed" and side == "res":
+        return f"{side}_{(i * 7) % 10}{i}.vtu"
+    return f"{side}_{i}.vtu"
+
+
 def run_impl(c, workdir, idx):
     d = os.path.join(workdir, f"q{idx}")
     os.makedirs(d, exist_ok=True)
     files = {}
+    scheme = ("index", "descending", "mixed")[idx % 3]
     for side in ("res", "ref"):
         steps = []
         for i, v in enumerate(c[side]):
-            p = os.path.join(d, f"{side}_{i}.vtu")
+            p = os.path.join(d, step_name(side, i, scheme))
             write_step(p, i, v)
             steps.append(os.path.basename(p))
         if c.get("container") == "xdmf":
@@ -112,9 +123,9 @@ def run_impl(c, workdir, idx):
             V.write_pvd(pvd, steps, times=time_labels(__import__("random").Random(1000 * idx + len(steps)), len(steps)))
             files[side] = pvd
     if c["kind"] == "seq_vs_single":
-        files["ref"] = os.path.join(d, "ref_0.vtu")
+        files["ref"] = os.path.join(d, step_name("ref", 0, scheme))
     if c["kind"] == "single_vs_seq":
-        files["res"] = os.path.join(d, "res_0.vtu")
+        files["res"] = os.path.join(d, step_name("res", 0, scheme))
     argv = ["file", files["res"], files["ref"], "--verbosity", "1"]
     if c["ign"]:
         argv.append("--ignore-missing-sequence-steps")
@@ -174,7 +185,7 @@ def iteration_checks(ctx, n_cases):
         n = rng.randint(1, 6)
         steps = []
         for i in range(n):
-            p = os.path.join(d, f"s_{i}.vtu")
+            p = os.path.join(d, step_name("s", i, ("index", "descending")[k % 2]))
             write_step(p, i, i)
             steps.append(os.path.basename(p))
         pvd = os.path.join(d, "s.pvd")
